@@ -7,7 +7,50 @@ package Electiontrigger
 //@ func (*TimerBasedElectionTrigger).CalcTimeout
 //@   props C19
 //@   mode bv
+//@   pure
 //@   requires t.minTimeout > 0
 //@   requires TIMEOUT_EXP_BASE == 2.0
 //@   ensures [value] result == Tspec(t.minTimeout, view)
 //@   ensures [positive] result > 0
+
+// ---- arming / stopping the timer (O19.4, O19.5, O16.4) ----
+// ghost (A-STD / A-CHAN): timerDelay / timerFn (what time.AfterFunc was given), timerStopped (Timer.Stop was called),
+// lastTimerStopResult, closed (closed channels), nsent (number of channel sends)
+
+//@ func (*TimerBasedElectionTrigger).Stop
+//@   props C19 C16
+//@   modifies Electiontrigger.TimerBasedElectionTrigger.electionHandler, Electiontrigger.TimerBasedElectionTrigger.timer, ghost:timerStopped, ghost:lastTimerStopResult, ghost:closed
+//@   requires [armed-implies-open-cancel-channel] t.timer != nil ==> t.triggerCancelled != nil && !closed[t.triggerCancelled]
+//@   ensures [disarmed] t.electionHandler == nil && t.timer == nil
+//@   ensures [old-timer-stopped] old(t.timer) != nil ==> timerStopped[old(t.timer)]
+//@   ensures [already-fired-callback-is-released] old(t.timer) != nil && !lastTimerStopResult ==> closed[old(t.triggerCancelled)]
+//@   ensures [nothing-else-closed] forall c int :: closed[c] && !old(closed[c]) ==> c == old(t.triggerCancelled)
+//@   ensures [pair-kept] t.view == old(t.view) && t.blockHeight == old(t.blockHeight) && t.triggerCancelled == old(t.triggerCancelled)
+
+//@ func (*TimerBasedElectionTrigger).RegisterOnElection
+//@   props C19
+//@   modifies Electiontrigger.TimerBasedElectionTrigger.electionHandler, Electiontrigger.TimerBasedElectionTrigger.timer, Electiontrigger.TimerBasedElectionTrigger.view, Electiontrigger.TimerBasedElectionTrigger.blockHeight, Electiontrigger.TimerBasedElectionTrigger.triggerCancelled, ghost:timerStopped, ghost:lastTimerStopResult, ghost:closed, ghost:timerDelay, ghost:timerFn
+//@   requires [armed-implies-open-cancel-channel] t.timer != nil ==> t.triggerCancelled != nil && !closed[t.triggerCancelled]
+//@   requires moveToNextLeader != nil
+//@   requires [configured-with-a-positive-base] t.minTimeout > 0 && TIMEOUT_EXP_BASE == 2.0
+//@   ensures [same-pair-while-armed-is-a-no-op] old(t.electionHandler) != nil && old(t.view) == view && old(t.blockHeight) == blockHeight ==>
+//@     | t.timer == old(t.timer) && t.electionHandler == old(t.electionHandler) && t.triggerCancelled == old(t.triggerCancelled) && t.view == view && t.blockHeight == blockHeight
+//@   ensures [otherwise-rearmed-for-exactly-this-pair] !(old(t.electionHandler) != nil && old(t.view) == view && old(t.blockHeight) == blockHeight) ==>
+//@     | t.view == view && t.blockHeight == blockHeight && t.electionHandler == moveToNextLeader && t.timer != nil && t.timer != old(t.timer)
+//@     | && timerDelay[t.timer] == t.CalcTimeout(view) && t.triggerCancelled != nil && t.triggerCancelled != old(t.triggerCancelled) && !closed[t.triggerCancelled]
+//@   ensures [otherwise-old-registration-stopped-first] !(old(t.electionHandler) != nil && old(t.view) == view && old(t.blockHeight) == blockHeight) && old(t.timer) != nil ==>
+//@     | timerStopped[old(t.timer)] && (!lastTimerStopResult ==> closed[old(t.triggerCancelled)])
+//@   ensures [armed-implies-open-cancel-channel] t.timer != nil ==> t.triggerCancelled != nil && !closed[t.triggerCancelled]
+
+// the timer callback hands exactly the registered pair and cancel channel to triggerElections
+//@ func (*TimerBasedElectionTrigger).RegisterOnElection$1
+//@   props C19
+//@   requires triggerCancelled != nil
+//@   assert before call triggerElections [O19.4.trigger-carries-the-registered-pair] $height == blockHeight && $view == view && $triggerCancelled == triggerCancelled
+
+// a trigger whose registration was already cancelled is never written to the election channel
+//@ func triggerElections
+//@   props C19 C16
+//@   requires triggerCancelled != nil
+//@   ensures [cancelled-trigger-is-not-sent] old(closed[triggerCancelled]) ==> nsent == old(nsent)
+//@   ensures [at-most-one-send] nsent <= old(nsent) + 1
